@@ -165,7 +165,11 @@ def work(ctx, idx):
     bs, sc_s = exe_for(ctx, sc, 'fread')
     wr.scenarios = 1
     per_class = collections.Counter()
+    hangs = 0
     for ii in range(cfg['inputs']):
+        if hangs >= 3:
+            wr.notes.append('scn %d: abandoned after %d runs ended by the wall-clock backstop' % (idx, hangs))
+            break
         irng = ctx.rng('scn', idx, 'in', ii)
         big = irng.random() < 0.08
         ln = irng.randint(20000, 70000) if big else irng.randint(1, 40)
@@ -207,8 +211,12 @@ def work(ctx, idx):
         basep = base_plan(plans_u[0][1])
         runs_u = common.run_batch(b.exe, [('base', basep.text())] + [(k, p.text()) for k, p, _ in plans_u]) if b.ok else {}
         runs_s = common.run_batch(bs.exe, [(k, p.text()) for k, p, _ in plans_s]) if bs.ok and plans_s else {}
+        # a scanner that loops costs the wall-clock backstop per run: three such runs settle the scenario
+        hangs += sum(1 for r in list(runs_u.values()) + list(runs_s.values()) if r.status == 'signal=14')
         rb = runs_u.get('base')
         if rb is None:
+            if hangs >= 3:
+                break
             continue
         for k, p, kind in plans_u + plans_s:
             rv = runs_u.get(k) or runs_s.get(k)
